@@ -172,8 +172,17 @@ def mmEnv (hasBase : Bool) : Env :=
   { prog := PamsGen.Code.prog.filter (fun e => e.1 == "MarketMakerAgent.submit_orders"),
     globals := agentGlobals, ext := mmExt hasBase, mro := PamsGen.Code.mroOf }
 
+/-- the orders, and the market list every `get_base_price` call was given -/
+def mmObs : Except Py.Err (Val × St) → Obs
+  | .ok (.list l, st) =>
+    .tuple [.tuple (l.map (orderObs st)),
+            .tuple ((st.calls.reverse.filter (fun c => c.fn == "get_base_price")).map (fun c =>
+              .tuple (c.args.map (fun a => match a with | .list m => .tuple (m.map Obs.ofVal) | v => Obs.ofVal v))))]
+  | .ok _ => .other
+  | .error e => .err e
+
 def mmPaths (hasBase : Bool) :=
-  obsPathsPG ordersObs (mmEnv hasBase) FUEL "MarketMakerAgent.submit_orders" [.ref 1, .list [.ref 5]] mmSt
+  obsPathsPG mmObs (mmEnv hasBase) FUEL "MarketMakerAgent.submit_orders" [.ref 1, .list [.ref 5, .ref 6]] mmSt
 
 def rhoMm (ttl : Nat) (spread base mp fund : K) : Rho K :=
   { i := fun k => if k = 2 then ttl else 0
@@ -185,11 +194,13 @@ theorem mmPaths_f : mmPaths false = evalnf% (mmPaths false) := by kernel_rfl
 
 /-- **`MarketMakerAgent.submit_orders` is the model's `mmOrders`**: a buy and a sell limit order of volume 1
 for the target market, symmetric around the base price — what `get_base_price` answers, or the market price
-when it answers `None` — at a distance of fundamental × spread × 0.5 -/
+when it answers `None` — at a distance of fundamental × spread × 0.5; `get_base_price` is asked exactly once,
+about *all* the markets the agent was handed -/
 theorem mm_src_base (ttl : Nat) (spread base mp fund : K) :
-    resultG ordersObs (rhoMm ttl spread base mp fund) (mmEnv true) FUEL "MarketMakerAgent.submit_orders"
-        [.ref 1, .list [.ref 5]] mmSt
-      = .tuple ((mmOrders base fund spread (PyNum.ofInt 1 / PyNum.ofInt 2) ttl).map (aorderObs 0)) := by
+    resultG mmObs (rhoMm ttl spread base mp fund) (mmEnv true) FUEL "MarketMakerAgent.submit_orders"
+        [.ref 1, .list [.ref 5, .ref 6]] mmSt
+      = .tuple [.tuple ((mmOrders base fund spread (PyNum.ofInt 1 / PyNum.ofInt 2) ttl).map (aorderObs 0)),
+                .tuple [.tuple [.tuple [.ref 5, .ref 6]]]] := by
   apply resultG_eq_of_pathsP (by intro x; simp)
   show ∀ p ∈ mmPaths true, _
   py_paths mmPaths_t
@@ -198,9 +209,10 @@ theorem mm_src_base (ttl : Nat) (spread base mp fund : K) :
   all_goals (try (constructor <;> rfl))
 
 theorem mm_src_no_base (ttl : Nat) (spread base mp fund : K) :
-    resultG ordersObs (rhoMm ttl spread base mp fund) (mmEnv false) FUEL "MarketMakerAgent.submit_orders"
-        [.ref 1, .list [.ref 5]] mmSt
-      = .tuple ((mmOrders mp fund spread (PyNum.ofInt 1 / PyNum.ofInt 2) ttl).map (aorderObs 0)) := by
+    resultG mmObs (rhoMm ttl spread base mp fund) (mmEnv false) FUEL "MarketMakerAgent.submit_orders"
+        [.ref 1, .list [.ref 5, .ref 6]] mmSt
+      = .tuple [.tuple ((mmOrders mp fund spread (PyNum.ofInt 1 / PyNum.ofInt 2) ttl).map (aorderObs 0)),
+                .tuple [.tuple [.tuple [.ref 5, .ref 6]]]] := by
   apply resultG_eq_of_pathsP (by intro x; simp)
   show ∀ p ∈ mmPaths false, _
   py_paths mmPaths_f
